@@ -15,7 +15,7 @@ from nautilus.bounds import (UnitCube, Ellipsoid, UnitCubeEllipsoidMixture, Unio
 from nautilus.bounds.periodic import PhaseShift  # noqa: E402
 
 POINTSETS = ['clusters2', 'blob', 'elongated', 'banana', 'corner', 'three', 'faces']
-EXTRA_POINTSETS = ['onface', 'compact', 'many']      # targeted families (not in the generic rotation)
+EXTRA_POINTSETS = ['onface', 'compact', 'many', 'topup']      # targeted families (not in the generic rotation)
 
 
 def pointset(kind, n_dim, n, seed):
@@ -57,6 +57,11 @@ def pointset(kind, n_dim, n, seed):
         # the compact one
         k = 7
         p = np.vstack([g.normal(0.35, 0.08, (k, n_dim)), 0.8 + 1e-12 * g.normal(size=(n - k, n_dim))])
+    elif kind == 'topup':
+        # n points with n in [2*npm, 3*npm) for the n_points_min the jobs use with this family (n = 11 or 13, npm = 4 or 5):
+        # a tight cluster plus two far outliers, so that the mixture fit assigns fewer than npm points to one
+        # component and the top-up has to move points
+        p = np.vstack([g.normal(0.4, 0.03, (n - 2, n_dim)), g.normal(0.85, 0.005, (2, n_dim))])
     elif kind == 'many':
         # many well separated small clusters: unions with more than ten members
         m = 14
@@ -353,6 +358,7 @@ def make_object(spec):
         log_l = -np.sum((pts - c) ** 2, axis=1)
     log_l_min = np.sort(log_l)[len(log_l) // 3]
     nnkw = dict(hidden_layer_sizes=(8, 4), max_iter=80)
+    nnkw.update(spec.get('nnkw', {}))         # non-default network options (must survive a write/read round trip)
     if cls == 'NeuralBound':
         return NeuralBound.compute(pts, log_l, log_l_min, enlarge_per_dim=enl, n_networks=spec.get('n_networks', 1),
                                    neural_network_kwargs=nnkw, rng=rng), pts[log_l >= log_l_min], None
